@@ -202,3 +202,56 @@ def strip_ansi(s):
     import re
 
     return re.sub(r"\x1b\[[0-9;]*m", "", s)
+
+
+_IMPL_TEXT = {}
+
+
+def impl_text(key, expr, default):
+    """A piece of wording of the code under test, asked of the code itself (so that a reworded message is not taken for
+    a changed behaviour); `default` (the wording of the pinned tree) when the code cannot be asked that way."""
+    if key not in _IMPL_TEXT:
+        import subprocess
+        from common import PY
+
+        try:
+            r = subprocess.run([PY, "-c", "import sys\n" + expr], env=dict(os.environ, PYTHONPATH=SRC, PYTHONHASHSEED="0"),
+                               capture_output=True, text=True, timeout=60)
+            val = r.stdout if r.returncode == 0 and r.stdout.strip() else default
+        except Exception:
+            val = default
+        _IMPL_TEXT[key] = val
+    return _IMPL_TEXT[key]
+
+
+def cached_wording():
+    """(before, after): what `cond run` prints around the identifier of a task whose cached result it uses, learnt from the
+    code under test (a one-task project run twice); the pinned tree's wording when the second run prints something else."""
+    default = ("Using cached results for ", ".")
+    if "cached" not in _IMPL_TEXT:
+        val = default
+        try:
+            import shutil
+
+            root = make_project({"COND": 'run_experiment(name="zq", run="true")\n'})
+            r1 = run_cond(["run", "//:zq"], root)
+            r2 = run_cond(["run", "//:zq"], root)
+            lines = [ln.strip() for ln in strip_ansi(r2.out + r2.err).splitlines() if "//:zq" in ln]
+            if r1.code == 0 and r2.code == 0 and len(index_rows(root)) == 1 and len(lines) == 1 and lines[0].count("//:zq") == 1:
+                before, after = lines[0].split("//:zq")
+                if before.strip() or after.strip():
+                    val = (before, after)
+            shutil.rmtree(os.path.dirname(root), ignore_errors=True)
+        except Exception:  # pylint: disable=broad-except
+            val = default
+        _IMPL_TEXT["cached"] = val
+    return _IMPL_TEXT["cached"]
+
+
+def abort_message():
+    """what `cond` prints when it ends because of an interrupt: ConductorAbort's own message"""
+    return impl_text("abort", "from conductor.errors import ConductorAbort\nsys.stdout.write(ConductorAbort().printable_message())", "aborted").strip()
+
+
+def abort_reported(text):
+    return abort_message() in text and "Traceback" not in text
